@@ -1178,7 +1178,14 @@ func main() {
 	fs := flag.NewFlagSet("C04", flag.ExitOnError)
 	procs := fs.Int("procs", min(runtime.NumCPU(), 16), "worker processes")
 	only := fs.String("base", "", "only mutate this base vertex (debugging; the run is then not exhaustive)")
+	replayF := fs.String("replay", "", "violation artefact: re-run the check and report whether its key is still produced")
 	fs.Parse(args)
+	if *replayF != "" {
+		if err := common.ReplayByRerun(*replayF); err != nil {
+			fmt.Fprintln(os.Stderr, err)
+			os.Exit(2)
+		}
+	}
 	if *procs < 1 {
 		*procs = 1
 	}
